@@ -360,6 +360,15 @@ theorem wsum_eraseIdx_zero (n : Nat) : ∀ (lam : List K) (verts : List (List K)
         simp at h
         simp only [List.eraseIdx_cons_succ, wsum, ih verts i h hv' hl]
 
+/-- the flat index of a fine pixel is `i·n + j` (coarse pixel `i`, sub-pixel `j`) -/
+theorem range_mul_eq_flatMap (dim n : Nat) :
+    List.range (dim * n) = (List.range dim).flatMap fun i => (List.range n).map fun j => i * n + j := by
+  induction dim with
+  | zero => simp
+  | succ d ih =>
+    rw [Nat.succ_mul, List.range_add, ih, List.range_succ, List.flatMap_append]
+    simp
+
 /-! ### nearest neighbour -/
 
 theorem argminFrom_spec (p : List K) : ∀ (pts : List (List K)) (i0 j : Nat) (d : K),
